@@ -205,6 +205,7 @@ def class_component_history(c0: int, t0: int, c1: int, t1: int, c2: int, t2: int
         # the class statements of this module once per path; a replay runs them once)
         c_._components.clear()
     m = Model(logger=NULL_LOGGER)
+    m2 = Model(logger=NULL_LOGGER)
     ref = [dict() for _ in classes]
     cs, ts = [c0, c1, c2], [t0, t1, t2]
     for k, op in enumerate(ops):
@@ -213,7 +214,7 @@ def class_component_history(c0: int, t0: int, c1: int, t1: int, c2: int, t2: int
         T = hx.pick(KT3 if hx.P.get('derived') else KT, ts[k])
         mine = hx.pick(ref, ci)
         if op == 'a':
-            comp = T(cls, m)
+            comp = T(cls, m if k % 2 == 0 else m2)      # (components built for different models: a duplicate is a duplicate)
             if T in mine:
                 hx.reach('duplicate_rejected')
                 try:
